@@ -395,4 +395,260 @@ theorem reported_walkT (e : Env) (reg : Registry) (m : Resolved) (ns : List Stri
     · exact Or.inr (Or.inr h)
     · exact Or.inl h
 
+/-! ### lists of written types: the member walkers -/
+
+/-- up to order, `c` is what the visitor collects for the written types `L`, plus the visit-time diagnostics `extra` -/
+structure Covers (e : Env) (ns : List String) (c : Collected) (L : List TypeRef) (extra : List Diag) : Prop where
+  refs : ∀ r, r ∈ c.refs ↔ ∃ t ∈ L, r ∈ (walkT e ns t).refs
+  units : ∀ u, u ∈ c.units ↔ ∃ t ∈ L, u ∈ (walkT e ns t).units
+  diags : ∀ x, x ∈ c.diags ↔ (∃ t ∈ L, x ∈ (walkT e ns t).diags) ∨ x ∈ extra
+
+theorem Covers.nil (e : Env) (ns : List String) : Covers e ns {} [] [] :=
+  ⟨by simp, by simp, by simp⟩
+
+theorem Covers.single (e : Env) (ns : List String) (t : TypeRef) : Covers e ns (walkT e ns t) [t] [] :=
+  ⟨by simp, by simp, by simp⟩
+
+theorem Covers.diagsOnly (e : Env) (ns : List String) (D : List Diag) : Covers e ns { diags := D } [] D :=
+  ⟨by simp, by simp, by simp⟩
+
+theorem Covers.append {e : Env} {ns : List String} {a b : Collected} {L1 L2 : List TypeRef} {x1 x2 : List Diag}
+    (ha : Covers e ns a L1 x1) (hb : Covers e ns b L2 x2) : Covers e ns (a ++ b) (L1 ++ L2) (x1 ++ x2) := by
+  refine ⟨fun r => ?_, fun u => ?_, fun x => ?_⟩
+  · simp only [Collected.refs_append, List.mem_append, ha.refs, hb.refs]
+    constructor
+    · rintro (⟨t, ht, h⟩ | ⟨t, ht, h⟩)
+      · exact ⟨t, Or.inl ht, h⟩
+      · exact ⟨t, Or.inr ht, h⟩
+    · rintro ⟨t, ht | ht, h⟩
+      · exact Or.inl ⟨t, ht, h⟩
+      · exact Or.inr ⟨t, ht, h⟩
+  · simp only [Collected.units_append, List.mem_append, ha.units, hb.units]
+    constructor
+    · rintro (⟨t, ht, h⟩ | ⟨t, ht, h⟩)
+      · exact ⟨t, Or.inl ht, h⟩
+      · exact ⟨t, Or.inr ht, h⟩
+    · rintro ⟨t, ht | ht, h⟩
+      · exact Or.inl ⟨t, ht, h⟩
+      · exact Or.inr ⟨t, ht, h⟩
+  · simp only [Collected.diags_append, List.mem_append, ha.diags, hb.diags]
+    constructor
+    · rintro ((⟨t, ht, h⟩ | h) | (⟨t, ht, h⟩ | h))
+      · exact Or.inl ⟨t, Or.inl ht, h⟩
+      · exact Or.inr (Or.inl h)
+      · exact Or.inl ⟨t, Or.inr ht, h⟩
+      · exact Or.inr (Or.inr h)
+    · rintro (⟨t, ht | ht, h⟩ | h | h)
+      · exact Or.inl (Or.inl ⟨t, ht, h⟩)
+      · exact Or.inr (Or.inl ⟨t, ht, h⟩)
+      · exact Or.inl (Or.inr h)
+      · exact Or.inr (Or.inr h)
+
+theorem covers_walkTs (e : Env) (ns : List String) (ts : List TypeRef) : Covers e ns (walkTs e ns ts) ts [] := by
+  induction ts with
+  | nil => exact Covers.nil e ns
+  | cons t ts ih => simp only [walkTs]; exact (Covers.single e ns t).append ih
+
+theorem covers_walkPs (e : Env) (ns : List String) (ps : List Param) :
+    Covers e ns (walkPs e ns ps) (ps.map paramType) [] := by
+  induction ps with
+  | nil => exact Covers.nil e ns
+  | cons p ps ih => cases p with | mk n t pos => simp only [walkPs]; exact (Covers.single e ns t).append ih
+
+theorem covers_walkOT (e : Env) (ns : List String) (o : Option TypeRef) : Covers e ns (walkOT e ns o) o.toList [] := by
+  cases o with
+  | none => exact Covers.nil e ns
+  | some t => exact Covers.single e ns t
+
+theorem covers_walkOTs (e : Env) (ns : List String) (o : Option (List TypeRef)) :
+    Covers e ns (walkOTs e ns o) (o.getD []) [] := by
+  cases o with
+  | none => exact Covers.nil e ns
+  | some ts => exact covers_walkTs e ns ts
+
+theorem covers_walkProps (e : Env) (ns : List String) (ps : List Prop') :
+    Covers e ns (walkProps e ns ps) (ps.map (·.ty)) [] := by
+  induction ps with
+  | nil => exact Covers.nil e ns
+  | cons p ps ih => simp only [walkProps]; exact (Covers.single e ns p.ty).append ih
+
+theorem covers_walkCodes (e : Env) (ns : List String) (cs : List ErrCode) :
+    Covers e ns (walkCodes e ns cs) (cs.flatMap (fun c => c.params.map paramType)) [] := by
+  induction cs with
+  | nil => exact Covers.nil e ns
+  | cons c cs ih => simp only [walkCodes, List.flatMap_cons]; exact (covers_walkPs e ns c.params).append ih
+
+/-- the `function`-as-field diagnostics of a field list -/
+def fnFieldDiags (e : Env) (fs : List Field) : List Diag :=
+  fs.flatMap (fun f => if isFn f.ty then [{ cls := "ParsingException", rule := "fn-field", file := e.file, pos := posOf f.ty }] else [])
+
+theorem covers_walkFields (e : Env) (ns : List String) (fs : List Field) :
+    Covers e ns (walkFields e ns fs) (fs.map (·.ty)) (fnFieldDiags e fs) := by
+  induction fs with
+  | nil => exact Covers.nil e ns
+  | cons f fs ih =>
+    simp only [walkFields, walkField, fnFieldDiags, List.flatMap_cons, List.map_cons]
+    have h1 : Covers e ns
+        (if isFn f.ty then ({ diags := [{ cls := "ParsingException", rule := "fn-field", file := e.file, pos := posOf f.ty }] } : Collected) else {})
+        [] (if isFn f.ty then [{ cls := "ParsingException", rule := "fn-field", file := e.file, pos := posOf f.ty }] else []) := by
+      cases isFn f.ty
+      · exact Covers.nil e ns
+      · exact Covers.diagsOnly e ns _
+    exact ((Covers.single e ns f.ty).append h1).append ih
+
+/-- the types written in a method: parameters, return type, `throws` list -/
+def methodTypes (m : Method) : List TypeRef := m.params.map paramType ++ m.ret.toList ++ (m.throwing.getD [])
+
+/-- the `static` ∧ `const` diagnostics of a method list -/
+def staticConstDiags (e : Env) (ms : List Method) : List Diag :=
+  ms.flatMap (fun m => if m.isStatic && m.isConst then [{ cls := "ParsingException", rule := "static-const", file := e.file, pos := m.pos }] else [])
+
+theorem covers_walkMethods (e : Env) (ns : List String) (ms : List Method) :
+    Covers e ns (walkMethods e ns ms) (ms.flatMap methodTypes) (staticConstDiags e ms) := by
+  induction ms with
+  | nil => exact Covers.nil e ns
+  | cons m ms ih =>
+    simp only [walkMethods, walkMethod, staticConstDiags, List.flatMap_cons, methodTypes]
+    have h1 : Covers e ns
+        (if m.isStatic && m.isConst then ({ diags := [{ cls := "ParsingException", rule := "static-const", file := e.file, pos := m.pos }] } : Collected) else {})
+        [] (if m.isStatic && m.isConst then [{ cls := "ParsingException", rule := "static-const", file := e.file, pos := m.pos }] else []) := by
+      cases (m.isStatic && m.isConst)
+      · exact Covers.nil e ns
+      · exact Covers.diagsOnly e ns _
+    have h2 := (((covers_walkPs e ns m.params).append (covers_walkOT e ns m.ret)).append (covers_walkOTs e ns m.throwing)).append h1
+    simp only [List.append_nil] at h2
+    exact h2.append ih
+
+/-- **A list of written types**: when `c` covers the types `L`, the front end reports about `c` exactly the type rules
+    of every member of `L` and the extra visit-time diagnostics. -/
+theorem reported_covers {e : Env} {ns : List String} {c : Collected} {L : List TypeRef} {extra : List Diag}
+    (hc : Covers e ns c L extra) (reg : Registry) (m : Resolved) (hb : Binds m reg c.refs) (x : Diag) :
+    Reported m reg c x ↔ (∃ t ∈ L, x ∈ typeRules (specEnvOf e reg) e.file ns t) ∨ x ∈ extra := by
+  have hbt : ∀ t ∈ L, Binds m reg (walkT e ns t).refs := fun t ht r hr => hb r ((hc.refs r).mpr ⟨t, ht, hr⟩)
+  unfold Reported
+  constructor
+  · rintro (h | ⟨r, hr, hx⟩ | ⟨u, hu, hx⟩)
+    · rcases (hc.diags x).mp h with ⟨t, ht, h⟩ | h
+      · exact Or.inl ⟨t, ht, (reported_walkT e reg m ns t (hbt t ht) x).mp (Or.inl h)⟩
+      · exact Or.inr h
+    · obtain ⟨t, ht, h⟩ := (hc.refs r).mp hr
+      exact Or.inl ⟨t, ht, (reported_walkT e reg m ns t (hbt t ht) x).mp (Or.inr (Or.inl ⟨r, h, hx⟩))⟩
+    · obtain ⟨t, ht, h⟩ := (hc.units u).mp hu
+      exact Or.inl ⟨t, ht, (reported_walkT e reg m ns t (hbt t ht) x).mp (Or.inr (Or.inr ⟨u, h, hx⟩))⟩
+  · rintro (⟨t, ht, h⟩ | h)
+    · rcases (reported_walkT e reg m ns t (hbt t ht) x).mpr h with h | ⟨r, hr, hx⟩ | ⟨u, hu, hx⟩
+      · exact Or.inl ((hc.diags x).mpr (Or.inl ⟨t, ht, h⟩))
+      · exact Or.inr (Or.inl ⟨r, (hc.refs r).mpr ⟨t, ht, hr⟩, hx⟩)
+      · exact Or.inr (Or.inr ⟨u, (hc.units u).mpr ⟨t, ht, hu⟩, hx⟩)
+    · exact Or.inl ((hc.diags x).mpr (Or.inr h))
+
+/-- a top-level written type of `c`: `type_def.primitive` is what the specification reads -/
+theorem Covers.primOf_eq {e : Env} {ns : List String} {c : Collected} {L : List TypeRef} {extra : List Diag}
+    (hc : Covers e ns c L extra) (reg : Registry) (m : Resolved) (hb : Binds m reg c.refs) (t : TypeRef) (ht : t ∈ L) :
+    primOf m e.file t = specPrim (specEnvOf e reg) ns t :=
+  primOf_eq_specPrim_top e reg m ns t (fun r hr => hb r ((hc.refs r).mpr ⟨t, ht, hr⟩))
+
+/-! ### the specification side: `declRules` = type rules of the written types + method signatures + kind rules -/
+
+/-- the kind-specific rules of `declRules` (its last summand) -/
+def kindRules (e : SpecEnv) (file : String) (ns : List String) : Decl → List Diag
+  | .flags _ _ items _ =>
+    (items.filter (fun i => match i.modifier with | some m => !(m == "all" || m == "none") | none => false)).map
+      (fun i => mk "ParsingException" "flag-modifier" file i.modifierPos)
+  | .record _ _ flags fpos fields der _ =>
+    let ord := ((match der with | some l => l.map Prod.fst | none => []) ++ e.defaultDeriving).contains "ord"
+    unknownTargets e file flags fpos
+    ++ ((der.getD []).filter (fun x => !(x.1 == "eq" || x.1 == "ord"))).map (fun x => mk "ParsingException" "deriving" file x.2)
+    ++ (fields.filter (fun f => isFn f.ty)).map (fun f => mk "ParsingException" "fn-field" file (posOf f.ty))
+    ++ (fields.filter (fun f => specPrim e ns f.ty == some .error)).map (fun f => mk "ParsingException" "field-error" file (posOf f.ty))
+    ++ (fields.filter (fun f => specPrim e ns f.ty == some .interface)).map (fun f => mk "ParsingException" "field-interface" file (posOf f.ty))
+    ++ (if ord then (fields.filter (fun f => specPrim e ns f.ty == some .collection)).map (fun f => mk "ParsingException" "ord-collection" file f.pos) else [])
+  | .interface _ _ main flags fpos methods _ pos =>
+    let cppOnly := targetsOrAll e.keys flags == ["cpp"]
+    unknownTargets e file flags fpos
+    ++ (if main && !cppOnly then [mk "ParsingException" "main-cpp" file pos] else [])
+    ++ (methods.filter (fun m => m.isStatic && m.isConst)).map (fun m => mk "ParsingException" "static-const" file m.pos)
+    ++ (if cppOnly then [] else (methods.filter (·.isStatic)).map (fun m => mk "ParsingException" "static-cpp" file m.pos))
+  | _ => []
+
+theorem declRules_eq (e : SpecEnv) (file : String) (ns : List String) (d : Decl) :
+    declRules e file ns d =
+      ((topTypes d).flatMap dataNodesT).flatMap (refRule e file ns)
+      ++ (sigsOf d).flatMap (sigRules e file ns)
+      ++ (fnFlagsOf d).flatMap (fun fp => unknownTargets e file fp.1 fp.2)
+      ++ kindRules e file ns d := by
+  cases d <;> rfl
+
+theorem fnFlagsOf_eq (d : Decl) (h : ∀ n c sig pos, d ≠ .function n c sig pos) :
+    fnFlagsOf d = ((topTypes d).flatMap fnNodesT).filterMap sigFlags := by
+  have hl : ∀ (l : List FnSig),
+      l.filterMap (fun | .mk (some f) p _ _ _ => some (f, p) | _ => none) = l.filterMap sigFlags := by
+    intro l
+    congr 1
+  cases d with
+  | function n c sig pos => exact absurd rfl (h n c sig pos)
+  | enum n c items pos => exact hl _
+  | flags n c items pos => exact hl _
+  | record n c fl fp fields der pos => exact hl _
+  | interface n c main fl fp methods props pos => exact hl _
+  | error n c codes pos => exact hl _
+
+theorem fnFlagsOf_function (n : String) (c : List String) (sig : FnSig) (pos : Pos) :
+    fnFlagsOf (.function n c sig pos) = (sig :: fnNodesF sig).filterMap sigFlags := by
+  show (sig :: fnNodesF sig).filterMap (fun | .mk (some f) p _ _ _ => some (f, p) | _ => none) = _
+  congr 1
+
+theorem mem_listRules_iff (se : SpecEnv) (file : String) (ns : List String) (L : List TypeRef) (x : Diag) :
+    ((x ∈ (L.flatMap dataNodesT).flatMap (refRule se file ns)
+        ∨ x ∈ ((L.flatMap fnNodesT).map sigOfFn).flatMap (sigRules se file ns))
+      ∨ x ∈ ((L.flatMap fnNodesT).filterMap sigFlags).flatMap (fun fp => unknownTargets se file fp.1 fp.2))
+    ↔ ∃ t ∈ L, x ∈ typeRules se file ns t := by
+  simp only [typeRules, List.mem_append, List.mem_flatMap, List.mem_map, List.mem_filterMap]
+  constructor
+  · rintro ((⟨n, ⟨t, ht, hn⟩, hx⟩ | ⟨s, ⟨sig, ⟨t, ht, hs⟩, rfl⟩, hx⟩) | ⟨fp, ⟨sig, ⟨t, ht, hs⟩, hfp⟩, hx⟩)
+    · exact ⟨t, ht, Or.inl (Or.inl ⟨n, hn, hx⟩)⟩
+    · exact ⟨t, ht, Or.inl (Or.inr ⟨_, ⟨sig, hs, rfl⟩, hx⟩)⟩
+    · exact ⟨t, ht, Or.inr ⟨fp, ⟨sig, hs, hfp⟩, hx⟩⟩
+  · rintro ⟨t, ht, (⟨n, hn, hx⟩ | ⟨s, ⟨sig, hs, rfl⟩, hx⟩) | ⟨fp, ⟨sig, hs, hfp⟩, hx⟩⟩
+    · exact Or.inl (Or.inl ⟨n, ⟨t, ht, hn⟩, hx⟩)
+    · exact Or.inl (Or.inr ⟨_, ⟨sig, ⟨t, ht, hs⟩, rfl⟩, hx⟩)
+    · exact Or.inr ⟨fp, ⟨sig, ⟨t, ht, hs⟩, hfp⟩, hx⟩
+
+/-- the specification's rules of a declaration that is not a named function, regrouped: type rules of every written
+    type, signature rules of the signatures `S` written directly (methods), kind rules -/
+theorem mem_declRules_iff (se : SpecEnv) (file : String) (ns : List String) (d : Decl) (S : List SigU)
+    (hs : sigsOf d = S ++ ((topTypes d).flatMap fnNodesT).map sigOfFn)
+    (hf : ∀ n c sig pos, d ≠ .function n c sig pos) (x : Diag) :
+    x ∈ declRules se file ns d ↔
+      (∃ t ∈ topTypes d, x ∈ typeRules se file ns t) ∨ (∃ s ∈ S, x ∈ sigRules se file ns s) ∨ x ∈ kindRules se file ns d := by
+  rw [declRules_eq, hs, fnFlagsOf_eq d hf, ← mem_listRules_iff]
+  simp only [List.mem_append, List.flatMap_append]
+  have hS : x ∈ S.flatMap (sigRules se file ns) ↔ ∃ s ∈ S, x ∈ sigRules se file ns s := List.mem_flatMap
+  rw [hS]
+  constructor
+  · rintro (((h | h | h) | h) | h)
+    · exact Or.inl (Or.inl (Or.inl h))
+    · exact Or.inr (Or.inl h)
+    · exact Or.inl (Or.inl (Or.inr h))
+    · exact Or.inl (Or.inr h)
+    · exact Or.inr (Or.inr h)
+  · rintro (((h | h) | h) | h | h)
+    · exact Or.inl (Or.inl (Or.inl h))
+    · exact Or.inl (Or.inl (Or.inr (Or.inr h)))
+    · exact Or.inl (Or.inr h)
+    · exact Or.inl (Or.inl (Or.inr (Or.inl h)))
+    · exact Or.inr h
+
+/-- a named function: the specification's rules are the type rules of the function type -/
+theorem declRules_function (se : SpecEnv) (file : String) (ns : List String) (n : String) (c : List String)
+    (sig : FnSig) (pos : Pos) :
+    declRules se file ns (.function n c sig pos) = typeRules se file ns (.fn sig pos) := by
+  rw [declRules_eq, fnFlagsOf_function]
+  have h1 : (topTypes (.function n c sig pos)).flatMap dataNodesT = dataNodesF sig := by
+    cases sig with
+    | mk fl fp params thr ret =>
+      simp only [topTypes, dataNodesF, dataNodesPs_eq, dataNodesOT_eq, dataNodesOTs_eq, List.flatMap_append]
+  rw [h1]
+  simp only [typeRules, dataNodesT, fnNodesT, sigsOf, kindRules, List.map_cons, List.append_nil]
+
 end Pydjinni.Front
